@@ -9,6 +9,9 @@ from ddoverif import extract, canon
 doc, info = extract.extract('dev')
 assert not doc.get('canon_notes')
 p = canon.profile(doc)
+from ddoverif import mirlib as M
+from ddoverif.rules import common as C
+p['call_guards'] = C.call_guard_table(M.Facts(doc))
 p['tree_hash'] = info['hash']
 with open(canon.REF, 'w') as f:
     json.dump(p, f, indent=0, sort_keys=True)
